@@ -22,7 +22,7 @@ def run(ctx):
     jobs = []
     for name, variants in SL.scenarios(b):
         for v in range(variants):
-            jobs += SL.job(b, name, v, pb, eb, shards=4)
+            jobs += SL.job(b, name, v, pb, eb, shards=4 if q else 16)
             jobs += SL.job(b, name, v, 1, 0, extra=["--plain", "1", "--horizon", "60000"], shards=4)   # fine tier: plain accesses are scheduling points too
     ctx.run_jobs(jobs, parallel=16)
     cov = SL.coverage(ctx, "concurrent: 3 threads owning distinct handles to one payload created by the main thread (String: copy/drop, append, clear, attach, join, assignment from a counted and from an uncounted String, C-string view, write through "
